@@ -121,4 +121,97 @@ example (t : V3 ℝ) (mult : ℝ) (X : Nat → V3 ℝ) (o : Opts) (m : MolG) :
     runFp o m (Geo.ofCoords mult (fun a => move rot345 t (X a))) = runFp o m (Geo.ofCoords mult X) :=
   rigid_invariant (by refine ⟨?_, ?_, ?_, ?_, ?_, ?_⟩ <;> norm_num [rot345]) (by norm_num [rot345, det]) t mult X o m
 
+/-! ## the z axis is never taken from an atom on the y axis
+
+`pick_z` projects the selected neighbour onto the plane orthogonal to `y`.  For a neighbour that is
+(anti)parallel to `y` (para-substituted ring atoms, linear groups) the projection is the zero vector - in
+floating point: round-off noise, whose direction is not invariant under rigid motion.  The repaired
+`pick_z` (`pickZ`) refuses a projection shorter than `EPS`; the raw selection is `pickZRaw`. -/
+
+open RealScalar in
+/-- the selected candidate's projection is shorter than `EPS`: there is no z axis -/
+theorem pickZ_on_axis (cand : List (Nat × Int × V3 ℝ × ℝ)) (y z : V3 ℝ) (h : pickZRaw cand y = some z)
+    (hz : V3.norm z < Scalar.eps) : pickZ cand y = none := by
+  unfold pickZ
+  rw [h]
+  exact if_pos ((lt_def _ _).2 hz)
+
+open RealScalar in
+/-- conversely, a z axis that is returned is the raw selection and is at least `EPS` long -/
+theorem pickZ_some_norm (cand : List (Nat × Int × V3 ℝ × ℝ)) (y z : V3 ℝ) (h : pickZ cand y = some z) :
+    pickZRaw cand y = some z ∧ Scalar.eps ≤ V3.norm z := by
+  unfold pickZ at h
+  cases hr : pickZRaw cand y with
+  | none => rw [hr] at h; cases h
+  | some w =>
+    rw [hr] at h
+    dsimp only at h
+    by_cases hg : Scalar.lt (V3.norm w) Scalar.eps = true
+    · rw [if_pos hg] at h; cases h
+    · rw [if_neg hg] at h
+      cases h
+      rw [lt_def] at hg
+      exact ⟨rfl, not_lt.1 hg⟩
+
+open RealScalar in
+/-- a multiple of `y` has no component orthogonal to `y` (for `y` not shorter than `√EPS`, which
+`as_unit` normalises; the y axis of a shell is a centred atom coordinate or a mean of at least
+`Y_AXIS_PRECISION` length) -/
+theorem projectToPlane_smul_self {y : V3 ℝ} (hy : (Scalar.eps : ℝ) ≤ V3.dot y y) (c : ℝ) :
+    V3.projectToPlane (V3.smul c y) y = V3.vzero := by
+  have hpos : 0 < V3.dot y y := lt_of_lt_of_le eps_pos hy
+  have hu : V3.asUnit y = V3.sdiv y (Real.sqrt (V3.dot y y)) := by
+    unfold V3.asUnit
+    simp only []
+    rw [if_neg]
+    · rfl
+    · rw [lt_def]; exact not_lt.2 hy
+  have hq : Real.sqrt (V3.dot y y) * Real.sqrt (V3.dot y y) = V3.dot y y := Real.mul_self_sqrt hpos.le
+  have hq0 : Real.sqrt (V3.dot y y) ≠ 0 := (Real.sqrt_pos.2 hpos).ne'
+  unfold V3.projectToPlane
+  simp only [hu]
+  generalize Real.sqrt (V3.dot y y) = r at hq hq0
+  have hd : V3.dot (V3.smul c y) (V3.sdiv y r) = c * r := by
+    have e : V3.dot (V3.smul c y) (V3.sdiv y r) = c * V3.dot y y / r := by
+      simp only [V3.dot, V3.smul, V3.sdiv, add_def, mul_def, div_def]
+      ring
+    rw [e, ← hq]
+    field_simp
+  rw [hd]
+  apply v3_ext <;> simp only [V3.sub, V3.smul, V3.sdiv, V3.vzero, sub_def, mul_def, div_def, zero_def] <;>
+    field_simp <;> ring
+
+open RealScalar in
+theorem norm_vzero : V3.norm (V3.vzero : V3 ℝ) = 0 := by
+  simp [V3.norm, V3.vzero, V3.dot]
+
+open RealScalar in
+/-- **the repaired defect**: a single candidate that is a multiple of `y` (parallel, `c > 0`, or
+antiparallel, `c < 0`) does not define a z axis -/
+theorem pickZ_on_axis_smul (k : Nat) (i : Int) (c a : ℝ) {y : V3 ℝ} (hy : (Scalar.eps : ℝ) ≤ V3.dot y y) :
+    pickZ [(k, i, V3.smul c y, a)] y = none := by
+  apply pickZ_on_axis _ y _ (pickZRaw_singleton _ y)
+  show V3.norm (V3.projectToPlane (V3.smul c y) y) < Scalar.eps
+  rw [projectToPlane_smul_self hy, norm_vzero]
+  exact eps_pos
+
+open RealScalar in
+/-- … whereas the raw selection returns the zero vector as the "direction" of the z axis -/
+theorem pickZRaw_on_axis_smul (k : Nat) (i : Int) (c a : ℝ) {y : V3 ℝ} (hy : (Scalar.eps : ℝ) ≤ V3.dot y y) :
+    pickZRaw [(k, i, V3.smul c y, a)] y = some V3.vzero := by
+  rw [pickZRaw_singleton]
+  show some (V3.projectToPlane (V3.smul c y) y) = _
+  rw [projectToPlane_smul_self hy]
+
+open RealScalar in
+/-- para-like arrangement: y axis `(1,0,0)`, the only candidate sits opposite at `(-2,0,0)` -/
+theorem pickZ_para_example :
+    pickZ [((0 : Nat), (0 : Int), (⟨-2, 0, 0⟩ : V3 ℝ), (0 : ℝ))] ⟨1, 0, 0⟩ = none := by
+  have hv : (⟨-2, 0, 0⟩ : V3 ℝ) = V3.smul (-2) ⟨1, 0, 0⟩ := by
+    apply v3_ext <;> simp [V3.smul]
+  have hy : (Scalar.eps : ℝ) ≤ V3.dot (⟨1, 0, 0⟩ : V3 ℝ) ⟨1, 0, 0⟩ := by
+    rw [eps_def]; norm_num [V3.dot]
+  rw [hv]
+  exact pickZ_on_axis_smul 0 0 (-2) 0 hy
+
 end E3fpVerif.Props.C01
